@@ -111,7 +111,8 @@ def chain(ctx, model, parser):
                   expr=f"{name} left fold", site=f"{name}: left-associative fold")
     # entry point: parse_expression falls through to parse_or_expr
     pe = model.func(P, "parser", "parse_expression")
-    ctx.check("C02.chain", pe, None, norm(pe.node.body[-1]) == "return parse_or_expr(lexer)",
+    ctx.check("C02.chain", pe, None, any(isinstance(r, ast.Return) and r.value is not None
+                                            and norm(r.value) == "parse_or_expr(lexer)" for r in ast.walk(pe.node)),
               "parse_expression does not end in parse_or_expr", expr="parse_expression tail",
               site="parse_expression -> parse_or_expr")
 
@@ -253,7 +254,20 @@ def boolean(ctx, model):
                 ctx.check("C02.bool", m, x, ("value.isBoolean()", True) in facts.get(node.id, frozenset()),
                           "NodeNot.evaluate uses the operand's payload without a dominating isBoolean() test",
                           site="NodeNot.evaluate: value.value guarded by isBoolean()")
-    ok = norm(m.node.body[-1]) in ("return FALSE if value.value else TRUE",)
+    from .common import decision_list
+    dl_ = decision_list(m.node) or []
+    outs = set()
+    for facts_, ret in dl_:
+        if isinstance(ret, ast.IfExp) and norm(ret.test) == "value.value":
+            outs.add(("T", norm(ret.body)))
+            outs.add(("F", norm(ret.orelse)))
+        elif ("value.value", True) in facts_:
+            outs.add(("T", norm(ret)))
+        elif ("value.value", False) in facts_:
+            outs.add(("F", norm(ret)))
+        else:
+            outs.add(("?", norm(ret)))
+    ok = outs == {("T", "FALSE"), ("F", "TRUE")}
     ctx.check("C02.bool", m, None, ok, "NodeNot.evaluate does not return the negation", expr="negation",
               site="NodeNot.evaluate: FALSE if value.value else TRUE")
 
@@ -393,7 +407,14 @@ def negtwin(ctx, model):
         statement list: elif chains, consecutive ifs, and loops over a module-level table (expanded per row)."""
         import copy
         out = []
-        for st in stmts:
+        for i_, st in enumerate(stmts):
+            if isinstance(st, ast.If) and isinstance(st.test, ast.UnaryOp) and isinstance(st.test.op, ast.Not) \
+                    and not st.orelse and st.body and isinstance(st.body[-1], (ast.Return, ast.Raise)):
+                # early exit written the other way round: `if not T: <fallback>` followed by the T alternative
+                ret = [x for x in stmts[i_ + 1:] if isinstance(x, ast.Return)]
+                out.append((norm(st.test.operand).replace("matchIf('in')", "matchIf('in', 'keyword')"),
+                            ret[0].value if ret else None, st))
+                break
             if isinstance(st, ast.If):
                 node = st
                 while True:
